@@ -13,7 +13,7 @@ import re
 KEYWORDS = set(
     """
 abstract access action advance all allocatable allocate assign assignment associate asynchronous
-backspace bind blank block blockdata byte c call case character class close codimension common complex
+backspace bind blank block blockdata byte call case character class close codimension common complex
 concurrent contains contiguous continue convert critical cycle data deallocate decimal default deferred
 delim dimension direct do double doubleprecision doublecomplex elemental else elseif elsewhere encoding end endassociate
 endblock endblockdata endcritical enddo endenum endfile endforall endfunction endif endinterface
@@ -41,13 +41,18 @@ nearest new_line nint not null pack precision present product radix random_numbe
 real repeat reshape rrspacing same_type_as scale scan selected_char_kind selected_int_kind
 selected_real_kind set_exponent shape sign sin sinh size spacing spread sqrt sum system_clock tan tanh
 tiny transfer transpose trim ubound unpack verify
+""".split()
+)
+INTRINSICS_08 = set(
+    """
 acosh asinh atanh bessel_j0 bessel_j1 bessel_jn bessel_y0 bessel_y1 bessel_yn bge bgt ble blt dshiftl
 dshiftr erf erfc erfc_scaled execute_command_line findloc gamma hypot iall iany image_index iparity
 is_contiguous lcobound leadz log_gamma maskl maskr merge_bits norm2 num_images parity popcnt poppar
 shifta shiftl shiftr storage_size this_image trailz ucobound
 """.split()
 )
-FOLD = KEYWORDS | INTRINSICS
+FOLD03 = KEYWORDS | INTRINSICS
+FOLD = KEYWORDS | INTRINSICS | INTRINSICS_08
 
 _COMPOUND = {
     ("else", "if"): "elseif",
@@ -90,6 +95,8 @@ def normalise(tokens, stmt_kind=None):
             low = t.lower()
             if low in FOLD:
                 t = low
+            elif low == "c" and i >= 2 and tokens[i - 1] == ("op", "(") and tokens[i - 2][1].lower() == "bind":
+                t = low  # BIND(C): the language name, not a user name
             elif low in ("b", "o", "z") and i + 1 < len(tokens) and tokens[i + 1][0] == "str":
                 t = low
         elif k == "dot":
